@@ -46,8 +46,8 @@ type c12hpWorld struct {
 
 	// addresses of the REMOTE peer (peerstore alphabet, index = bit in c12hpInitCase.PsAddrs)
 	remPubTCP, remPubQUIC, remPrivTCP, remRelayPriv, remRelayPub ma.Multiaddr
-	remRelayFull                                                ma.Multiaddr // relay address with the /p2p/<remote> suffix
-	psAlphabet                                                  []ma.Multiaddr
+	remRelayFull                                                 ma.Multiaddr // relay address with the /p2p/<remote> suffix
+	psAlphabet                                                   []ma.Multiaddr
 
 	// our own addresses
 	ownPubTCP, ownPubQUIC, ownRelay ma.Multiaddr
@@ -134,19 +134,19 @@ type c12hpConn struct {
 
 var _ network.Conn = (*c12hpConn)(nil)
 
-func (c *c12hpConn) Close() error                           { c.mu.Lock(); c.closed = true; c.mu.Unlock(); return nil }
+func (c *c12hpConn) Close() error                               { c.mu.Lock(); c.closed = true; c.mu.Unlock(); return nil }
 func (c *c12hpConn) CloseWithError(network.ConnErrorCode) error { return c.Close() }
-func (c *c12hpConn) LocalPeer() peer.ID                     { return c.local }
-func (c *c12hpConn) RemotePeer() peer.ID                    { return c.remote }
-func (c *c12hpConn) RemotePublicKey() ic.PubKey             { return nil }
-func (c *c12hpConn) ConnState() network.ConnectionState     { return network.ConnectionState{} }
-func (c *c12hpConn) LocalMultiaddr() ma.Multiaddr           { return c.laddr }
-func (c *c12hpConn) RemoteMultiaddr() ma.Multiaddr          { return c.raddr }
-func (c *c12hpConn) Scope() network.ConnScope               { return &network.NullScope{} }
-func (c *c12hpConn) ID() string                             { return c.id }
-func (c *c12hpConn) GetStreams() []network.Stream           { return nil }
-func (c *c12hpConn) IsClosed() bool                         { c.mu.Lock(); defer c.mu.Unlock(); return c.closed }
-func (c *c12hpConn) As(any) bool                            { return false }
+func (c *c12hpConn) LocalPeer() peer.ID                         { return c.local }
+func (c *c12hpConn) RemotePeer() peer.ID                        { return c.remote }
+func (c *c12hpConn) RemotePublicKey() ic.PubKey                 { return nil }
+func (c *c12hpConn) ConnState() network.ConnectionState         { return network.ConnectionState{} }
+func (c *c12hpConn) LocalMultiaddr() ma.Multiaddr               { return c.laddr }
+func (c *c12hpConn) RemoteMultiaddr() ma.Multiaddr              { return c.raddr }
+func (c *c12hpConn) Scope() network.ConnScope                   { return &network.NullScope{} }
+func (c *c12hpConn) ID() string                                 { return c.id }
+func (c *c12hpConn) GetStreams() []network.Stream               { return nil }
+func (c *c12hpConn) IsClosed() bool                             { c.mu.Lock(); defer c.mu.Unlock(); return c.closed }
+func (c *c12hpConn) As(any) bool                                { return false }
 func (c *c12hpConn) NewStream(context.Context) (network.Stream, error) {
 	return nil, errors.New("c12hp: Conn.NewStream is not scripted")
 }
@@ -401,11 +401,11 @@ func (n *c12hpNet) StopNotify(nf network.Notifiee) {
 		}
 	}
 }
-func (n *c12hpNet) CanDial(peer.ID, ma.Multiaddr) bool         { return true }
-func (n *c12hpNet) ResourceManager() network.ResourceManager  { return &network.NullResourceManager{} }
-func (n *c12hpNet) ListenAddresses() []ma.Multiaddr           { return nil }
-func (n *c12hpNet) SetStreamHandler(network.StreamHandler)    {}
-func (n *c12hpNet) StopListen()                               {}
+func (n *c12hpNet) CanDial(peer.ID, ma.Multiaddr) bool       { return true }
+func (n *c12hpNet) ResourceManager() network.ResourceManager { return &network.NullResourceManager{} }
+func (n *c12hpNet) ListenAddresses() []ma.Multiaddr          { return nil }
+func (n *c12hpNet) SetStreamHandler(network.StreamHandler)   {}
+func (n *c12hpNet) StopListen()                              {}
 
 // ---------- recorded calls ----------
 
@@ -424,7 +424,7 @@ type c12hpCall struct {
 	PiAddrs     []string `json:"pi_addrs,omitempty"`
 	PsAddrs     []string `json:"peerstore_addrs,omitempty"` // addresses in the peerstore for the peer when the call was made
 	Dialled     []string `json:"dialled,omitempty"`         // what the modelled swarm would dial
-	Offered     []string `json:"offered,omitempty"`         // addresses in the remote's most recent CONNECT (as parsed by the harness)
+	Offered     []string `json:"offered,omitempty"`         // addresses the remote announced on the current coordination stream (as parsed by the harness)
 
 	// newstream
 	AllowLimited bool   `json:"allow_limited,omitempty"`
@@ -456,11 +456,12 @@ type c12hpHost struct {
 	wg        sync.WaitGroup // remote-end driver goroutines
 
 	// script
-	directOK    bool                // outcome of a force-direct dial that is not a simultaneous-connect attempt
-	punchOK     func(k int) bool    // outcome of the k-th (0-based) simultaneous-connect dial
-	lateAt      int                 // the remote's own dial lands an INBOUND direct connection during the lateAt-th failed punch (1-based, 0 = never)
+	directOK    bool                                              // outcome of a force-direct dial that is not a simultaneous-connect attempt
+	punchOK     func(k int) bool                                  // outcome of the k-th (0-based) simultaneous-connect dial
+	failBlocks  bool                                              // a failing dial blocks until the context deadline instead of failing after 300 ms
+	lateAt      int                                               // the remote's own dial lands an INBOUND direct connection during the lateAt-th failed punch (1-based, 0 = never)
 	remoteEnd   func(k int, remote *c12hpStream, rec *c12hpCoord) // drives the far end of the k-th coordination stream
-	streamError func(k int) error   // NewStream fails (e.g. protocol negotiation) for the k-th stream
+	streamError func(k int) error                                 // NewStream fails (e.g. protocol negotiation) for the k-th stream
 	nPunch      int
 	nStream     int
 	coords      []*c12hpCoord
@@ -510,15 +511,16 @@ func (h *c12hpHost) hasDirect() bool {
 	return false
 }
 
-func (h *c12hpHost) ID() peer.ID                                   { return h.id }
-func (h *c12hpHost) Peerstore() peerstore.Peerstore                { return h.ps }
-func (h *c12hpHost) Addrs() []ma.Multiaddr                         { return nil }
-func (h *c12hpHost) Network() network.Network                      { return h.net }
-func (h *c12hpHost) Mux() protocol.Switch                          { return nil }
-func (h *c12hpHost) ConnManager() connmgr.ConnManager              { return &connmgr.NullConnMgr{} }
-func (h *c12hpHost) EventBus() event.Bus                           { return nil }
-func (h *c12hpHost) Close() error                                  { return nil }
-func (h *c12hpHost) SetStreamHandlerMatch(protocol.ID, func(protocol.ID) bool, network.StreamHandler) {}
+func (h *c12hpHost) ID() peer.ID                      { return h.id }
+func (h *c12hpHost) Peerstore() peerstore.Peerstore   { return h.ps }
+func (h *c12hpHost) Addrs() []ma.Multiaddr            { return nil }
+func (h *c12hpHost) Network() network.Network         { return h.net }
+func (h *c12hpHost) Mux() protocol.Switch             { return nil }
+func (h *c12hpHost) ConnManager() connmgr.ConnManager { return &connmgr.NullConnMgr{} }
+func (h *c12hpHost) EventBus() event.Bus              { return nil }
+func (h *c12hpHost) Close() error                     { return nil }
+func (h *c12hpHost) SetStreamHandlerMatch(protocol.ID, func(protocol.ID) bool, network.StreamHandler) {
+}
 func (h *c12hpHost) SetStreamHandler(p protocol.ID, f network.StreamHandler) {
 	h.mu.Lock()
 	h.handlers[p] = f
@@ -614,6 +616,15 @@ func (h *c12hpHost) Connect(ctx context.Context, pi peer.AddrInfo) error {
 		h.setResult(idx, "err:context", dial)
 		return ctx.Err()
 	}
+	if !ok && h.failBlocks && hasDL {
+		// the other flavour of a failed dial: nothing answers until the caller's deadline
+		<-ctx.Done()
+		if late {
+			h.addConn(false, network.DirInbound)
+		}
+		h.setResult(idx, "err:context-deadline", dial)
+		return ctx.Err()
+	}
 	if !ok {
 		if late {
 			// our dial failed but the remote's simultaneous dial got through: an inbound direct connection appears
@@ -701,11 +712,11 @@ func (h *c12hpHost) NewStream(ctx context.Context, p peer.ID, protos ...protocol
 	return local, nil
 }
 
-// noteOffered remembers what the remote most recently offered in a CONNECT (parsed by the harness, not by the
-// code under test) so that Connect calls can be compared with it.
+// noteOffered remembers the addresses the remote announced on the current coordination stream (parsed by the
+// harness, not by the code under test; in any message type) so that Connect calls can be compared with them.
 func (h *c12hpHost) noteOffered(as []ma.Multiaddr) {
 	h.mu.Lock()
-	h.lastOffered = as
+	h.lastOffered = append(h.lastOffered, as...)
 	h.mu.Unlock()
 }
 
@@ -821,7 +832,9 @@ var c12hpAnsNames = []string{"CONNECT[public]", "CONNECT[public x2,private]", "C
 
 // c12hpAnsUsable: the harness's expectation that an honest initiator can go on after this answer (used only to
 // prune unreachable tails of the script enumeration and to pick the baselines, never as an oracle).
-func c12hpAnsUsable(a int) bool { return a == c12hpAnsPublic || a == c12hpAnsMulti || a == c12hpAnsMixed }
+func c12hpAnsUsable(a int) bool {
+	return a == c12hpAnsPublic || a == c12hpAnsMulti || a == c12hpAnsMixed
+}
 
 // c12hpAnswerBytes returns the ObsAddrs of a CONNECT answer and the addresses a correct parser gets from them.
 func c12hpAnswerBytes(w *c12hpWorld, a int) (raw [][]byte, parsed []ma.Multiaddr) {
